@@ -353,7 +353,7 @@ C11_FULL = _fns("c11.rs", r"\b(c11_full_\w+) =")
 C11_IO = _fns("c11.rs", r"\b(c11_io_\w+) =")
 C11_EPS = _fns("c11.rs", r"\b(c11_eps_\w+) =")
 C11_EXACT = _fns("c11.rs", r"\b(c11_exact_\w+) =")
-C11_CUT = _fns("c11_cuts.rs", r"\b(c11_cut_\w+) =")
+C11_CUT = _fns("c11_cuts.rs", r"\b(c11_call_\w+) =")
 C11_HDRK = _fns("c11_cuts.rs", r"\b(c11_hdrk_\w+) =")
 
 
@@ -362,12 +362,12 @@ def c11_jobs(tier):
     full = C11_FULL[:8] if q else C11_FULL
     eps = C11_EPS[:9] if q else C11_EPS
     ex = C11_EXACT[:4] if q else C11_EXACT
-    pick = lambda n: any(n.endswith("_k%d" % k) for k in (0, 7, 9, 12, 17, 28, 36, 40, 43))
+    pick = lambda n: any(n.endswith(sfx % k) for sfx in ("_k%d", "_j%d") for k in (0, 2, 5, 8, 12, 13, 20, 29, 37, 40, 43))
     cut = [c for c in C11_CUT if pick(c)] if q else C11_CUT
     hdr = [c for c in C11_HDRK if "_u32_" in c and pick(c)] if q else C11_HDRK
     io = C11_IO[:4] if q else C11_IO
     hs = names("c11", full, bound="every cut point k < len (symbolic), values symbolic", what="Err(ReadError), never a value")
-    hs += names("c11", cut + [h for h in hdr if "_full_" in h], bound="cut point K (instance constant; every K in thorough), values symbolic", what="Err(ReadError), never a value (deep types / public entry points with header)", covers="none")
+    hs += names("c11", cut + [h for h in hdr if "_full_" in h], bound="truncation point (byte K for the public entry points, request J for deep types) is an instance constant; every K/J in thorough; values symbolic", what="Err(ReadError), never a value (deep types / public entry points with header)", covers="none")
     hs += names("c11", io, bound="every cut point k in [PRE, len) (symbolic) incl. inside (trailing) alignment padding; reader = byte slice through the blanket io::Read impl", what="Err(ReadError), never a value")
     hs += [H("c11::" + n, bound="every cut point k < len (symbolic), values symbolic", what="never a value; only bounds-check panics tolerated", allow=C11_ALLOW, covers="none") for n in eps + [h for h in hdr if "_eps_" in h]]
     hs += [H("c11::" + n, bound="exact-size heap copy of the prefix (K bytes): any read outside it is a pointer-check failure", what="never a value, no out-of-object access", allow=C11_ALLOW, covers="none") for n in ex]
